@@ -48,6 +48,13 @@ def run(prog, tier):
     shape_rules(T, prog)
     check_composition(R, prog, T)
     check_cli_names(R, prog)
+    # the gadget CNFs come from add_linear / add_parity / the majority builders: their meaning is decided by C04's rules
+    from ._families import borrow
+    from . import c04
+    borrow(R, P, "MECHANISM", prog, c04.check_add_linear, floor=4)
+    borrow(R, P, "MECHANISM", prog, c04.check_neq_blast, floor=1)
+    borrow(R, P, "MECHANISM", prog, c04.check_parity, floor=1)
+    borrow(R, P, "MECHANISM", prog, c04.check_thresholds, builder_table(prog), floor=8)
     return R
 
 
